@@ -550,6 +550,9 @@ func runCheck(id, tier string) int {
 				if hasEngineOnly(w.Script, "maporder", "sched", "preempt", "select", "pool") {
 					continue // order-dependent path: native run may legitimately take another path
 				}
+				if strings.Contains(o.Desync, "engine-only") {
+					continue // the path uses a facility only the engine has (model clock advance, abstract store)
+				}
 				mismatches = append(mismatches, fmt.Sprintf("witness %s trail=%v: native desync=%q failed=%q panic=%q timeout=%v", c.harness, w.Trail, o.Desync, o.Failed, o.Panic, o.Timeout))
 				continue
 			}
@@ -600,7 +603,7 @@ func runCheck(id, tier string) int {
 			}
 			if !repro && strings.Contains(o.Desync, "engine-only") {
 				// the counterexample goes through a stub with no native counterpart (abstract storage crash)
-				status = "not natively replayable: depends on the abstract storage stub (" + o.Desync + ")"
+				status = "not natively replayable: depends on an engine-only facility (" + o.Desync + ")"
 			} else if !repro {
 				status = "not-reproduced"
 				if hasEngineOnly(v.Script, "sched", "preempt", "clock") && !hasEngineOnly(v.Script, "nothing") && v.Kind == "assert" && (hasEngineOnly(v.Script, "sched", "preempt")) {
